@@ -168,7 +168,7 @@ PROPS = {
             "clap's parsing of file names that resemble a sub-command (e.g. a relative `a.fits`) is outside the model; the harness passes absolute paths"],
         "rule": "for each quantity all 9 (left width, right width) pairs x 2 (24 thorough) random operand pairs (empty, full, shallow, deepest depth) x {inter, union, symdiff, minus} with a random output format "
                 "(fits, ascii, json); per (quantity, width) 2 (24) MOCs through complement, degrade to a random depth and all 9 convert pairs {fits, ascii, json} x {fits, ascii, json} (folded / offset text inputs); "
-                "a deterministic sweep text -> FITS at every depth around MAX_DEPTH of u16/u32 of each quantity (automatic narrowing); space-time ops in three passes (coarse time cells, 1-microsecond cells at 0 and at the top of the time domain) on random and RELATED ST operands; `from freqval` / `from freqrange` (hertz values as shortest round-trip decimals, depths around the frequency narrowing thresholds), `from timestamppos` / `from timerangepos` (microseconds + positions, judged point-wise on the ends of every observation and their neighbours); NUNIQ (v1) left operand against a u32 right operand; `from timestamp` / `from timerange` (microseconds, depths 0..61, instants at both ends of the time domain, duplicates, touching ranges) "
+                "a deterministic sweep text -> FITS at every depth around MAX_DEPTH of u16/u32 of each quantity (automatic narrowing); space-time ops in three passes (coarse time cells, 1-microsecond cells at 0 and at the top of the time domain) on random and RELATED ST operands; `from freqval` / `from freqrange` (hertz values as shortest round-trip decimals, depths around the frequency narrowing thresholds), `from timestamppos` / `from timerangepos` (microseconds + positions, judged point-wise on the ends of every observation and their neighbours); `from vcells` (ASCII multi-order map, all 16 option combinations, against the C20 model); NUNIQ (v1) left operand against a u32 right operand; `from timestamp` / `from timerange` (microseconds, depths 0..61, instants at both ends of the time domain, duplicates, touching ranges) "
                 "and `from pos`; invalid inputs (missing file, S-MOC vs T-MOC, stream inputs, truncated / corrupted / random / text-as-FITS files, out-of-domain / overlapping / reversed / garbage ASCII, garbage "
                 "lines and out-of-range depths for `from`, out-of-range degrade depth): non-zero exit status with a message and never exit 101. distinct_nontrivial = distinct op lines with a non-empty operand.",
         "explanation": "theorems: stream handed to the writer = set operation on the two inputs for any widths and consistent hints, width independence in the 64-bit index space, complement, degrade, re-exported codec and builder theorems; correspondence on the real binary",
